@@ -20,9 +20,12 @@ def main():
     checks = [prop]
     skip_suite = "--skip-suite" in sys.argv
     race = False
+    note = ""
     for i, a in enumerate(sys.argv):
         if a == "--checks":
             checks = sys.argv[i + 1].split(",")
+        if a == "--note":
+            note = sys.argv[i + 1]
     patch = os.path.join(cand, "patch%s.diff" % k)
     demo = os.path.join(cand, "demo%s_test.go" % k)
     meta = json.load(open(os.path.join(cand, "meta%s.json" % k)))
@@ -38,6 +41,8 @@ def main():
     else:  # package main: one of the tools
         txt = json.dumps(meta)
         loc = "tools/rdgen" if "rdgen" in txt else "tools/rddetector"
+    names = re.findall(r"^func (Test\w+)\(", src, re.M)
+    runre = "^(" + "|".join(names) + ")$" if names else "Demo"
     wt = "/tmp/rehearse/wt_%s_%s" % (prop, k)
     shutil.rmtree(wt, ignore_errors=True)
     os.makedirs("/tmp/rehearse", exist_ok=True)
@@ -50,7 +55,7 @@ def main():
         shutil.copy(demo, dst)
         demo_cmd = meta.get("demo_command") or ""
         flags = "-race " if "-race" in demo_cmd else ""
-        rc, out = sh("go test %s-vet=off -count=1 -run 'Demo|demo|C%s' ./%s" % (flags, prop[1:], loc), cwd=wt)
+        rc, out = sh("go test %s-vet=off -count=1 -run '%s' ./%s" % (flags, runre, loc), cwd=wt)
         res["demo_clean_rc"] = rc
         res["demo_clean_tail"] = out[-400:]
         rc, out = sh("git apply %s" % patch, cwd=wt)
@@ -59,7 +64,7 @@ def main():
             print(json.dumps(res, indent=1)); return
         rc, out = sh("go build ./...", cwd=wt)
         res["build_rc"] = rc
-        rc, out = sh("go test %s-vet=off -count=1 -run 'Demo|demo|C%s' ./%s" % (flags, prop[1:], loc), cwd=wt)
+        rc, out = sh("go test %s-vet=off -count=1 -run '%s' ./%s" % (flags, runre, loc), cwd=wt)
         res["demo_patched_rc"] = rc
         res["demo_patched_tail"] = out[-600:]
         os.remove(dst)
@@ -97,6 +102,8 @@ def main():
                     ["VERIF_REPO=<worktree with the change> ./check %s --tier quick" % c for c in checks],
              "caught_by": {c: (v["rc"] == 1) for c, v in res["checks"].items()},
              "check_output": res["checks"]}
+        if note:
+            m["history"] = note
         json.dump(m, open(os.path.join(sd, "meta.json"), "w"), indent=1, ensure_ascii=False)
     print(json.dumps(res, indent=1, ensure_ascii=False))
 
